@@ -133,6 +133,18 @@ def misaligned_payload(tj: list) -> bool:
     return any(tag != "i" and off % 8 for off, tag, _ in leaf_offsets(tj))
 
 
+def bit_over_wide_cell(tj: list, cells: list[int]) -> bool:
+    """some bit leaf lies over a cell (code point) above 255"""
+    return any(tag == "i" and off // 8 < len(cells) and cells[off // 8] > 255 for off, tag, _ in leaf_offsets(tj))
+
+
+def mixed_bits_nonascii_text(tj: list) -> bool:
+    """bit leaves next to a text leaf with a code point >= 0x80: the str view of such a tree is the Latin-1 reading of
+    its UTF-8 bytes (C09; the class of C05/nonascii-text-next-to-binary) — there is no str to compare the input with"""
+    ls = list(gio.tree_leaves(tj))
+    return any(tag == "i" for tag, _ in ls) and any(tag == "t" and any(c >= 0x80 for c in p) for tag, p in ls)
+
+
 def has_bits(tj: list) -> bool:
     return any(tag == "i" for _, tag, _ in leaf_offsets(tj))
 
@@ -287,7 +299,10 @@ def judge_trees(run: Run, t: dict, real: dict, verdicts: list[dict]) -> int:
             run.report("C04/wrong-root", f"yielded tree is rooted at {o.get('root')}, requested {t['start']}: {where}", rd)
         if o.get("helpers"):
             run.report("C04/helper-symbol", f"helper symbols {o['helpers']} inside a yielded tree: {where}", rd)
-        if not o.get("value_ok") or o.get("bits_ok") is False:
+        if t["word"]["kind"] == "str" and not o.get("value_ok") and mixed_bits_nonascii_text(tj) \
+                and not misaligned_payload(tj) and not bit_over_wide_cell(tj, t["word"]["cells"]):
+            run.count("value:str_view_of_bits_next_to_nonascii_text_not_compared")
+        elif not o.get("value_ok") or o.get("bits_ok") is False:
             got = o.get("value_exc") or o.get("value")
             what = (f"yielded tree does not serialise to the input (got {got!r}, bits_ok={o.get('bits_ok')}): {where}; "
                     f"leaves {[(a, b) for a, b in gio.tree_leaves(tj)][:12]}")
@@ -296,7 +311,7 @@ def judge_trees(run: Run, t: dict, real: dict, verdicts: list[dict]) -> int:
                 if run.counters["finding:misaligned_payload"] <= 3:      # a few witnesses per finding on the console
                     run.report(SIG_MISALIGNED, what + " — a text/bytes terminal was matched at a column that is not a "
                            "multiple of 8 against the whole cell", rd)
-            elif t["word"]["kind"] == "str" and has_bits(tj) and any(c > 255 for c in t["word"]["cells"]):
+            elif t["word"]["kind"] == "str" and bit_over_wide_cell(tj, t["word"]["cells"]):
                 run.count("finding:bits_of_wide_character")
                 if run.counters["finding:bits_of_wide_character"] <= 3:
                     run.report(SIG_WIDE, what + " — bit terminals read the low 8 bits of a code point above 255", rd)
@@ -368,9 +383,23 @@ def grammar_phase(run: Run, tier: str, corr: list) -> None:
         if mp["status"] == "fuel":
             corr.append({"case": replay_dict(t), "what": "model ran out of fuel, real finished", "steps": mp["steps"]})
         elif mp["status"] != want:
-            corr.append({"case": replay_dict(t), "what": f"real {st}, model {mp['status']}"})
+            if st == "ok" and mp["status"] == "raised" and "bits" in " ".join(t["tags"]) + t.get("mode", ""):
+                # the model's IndexError comes from a payload terminal scanned off the byte boundary at the end of the
+                # table; a parser with the guard never gets there
+                run.count("corr:model_raised_off_boundary_real_ok")
+            else:
+                corr.append({"case": replay_dict(t), "what": f"real {st}, model {mp['status']}"})
         elif st == "ok":
             if eio.canon_forest(mp["forest"]) != eio.canon_forest(r["forest"]):
+                # the model has the scanner of the code as it was pinned (no alignment guard, bits of wide characters):
+                # once the two open findings are repaired in /repo the real forest is the model's forest minus exactly
+                # the unsound trees — that is agreement with the *guarded* model (`scanAligned`), not a disagreement
+                wide = t["word"]["kind"] == "str" and any(c > 255 for c in t["word"]["cells"])
+                kept = [x for x in mp["forest"] if not misaligned_payload(x)
+                        and not (wide and bit_over_wide_cell(x, t["word"]["cells"]))]
+                if eio.canon_forest(kept) == eio.canon_forest(r["forest"]):
+                    run.count("corr:forest_equal_modulo_open_findings")
+                    continue
                 a, b = eio.canon_forest(mp["forest"]), eio.canon_forest(r["forest"])
                 corr.append({"case": replay_dict(t), "what": "forests differ", "model": len(a), "real": len(b),
                              "model_only": [x for x in a if x not in b][:2], "real_only": [x for x in b if x not in a][:2]})
